@@ -42,7 +42,7 @@ inline bool inArena(void *p) { return (char *) p >= g_lo && (char *) p < g_hi; }
 
 inline void *alloc(size_t n, size_t align) {
 	int m = g_mode.load(std::memory_order_relaxed);
-	if (m != NORMAL && n <= 2048 && align <= 64) {
+	if (m != NORMAL && n <= 16384 && align <= 64) {
 		uint64_t r = mix64(g_seed ^ g_counter.fetch_add(1, std::memory_order_relaxed));
 		if (m == REVERSE || (r & 1)) {
 			size_t gap = (m == MIX) ? 16 * ((r >> 8) % 4) : 0;
